@@ -217,3 +217,42 @@ fn revoke(by_delete: bool) {
 }
 harness! { #[kani::unwind(8)] fn c09_update_revokes_stream_grants() { revoke(false) } }
 harness! { #[kani::unwind(8)] fn c09_delete_revokes_stream_grants() { revoke(true) } }
+
+// ---- thorough tier: the remaining rule families that take a stream / topic target ----
+fn stream_rules(s: u32) {
+    let w = any_world(Some(true));
+    let p = permissioner_of(&w);
+    let e = effective(&w, s, 1);
+    if p.get_stream(1, s).is_ok() { assert!(e.read_stream, "get_stream allowed without a grant for that stream"); }
+    if p.update_stream(1, s).is_ok() { assert!(e.manage_stream, "update_stream allowed without a grant for that stream"); }
+    if p.delete_stream(1, s).is_ok() { assert!(e.manage_stream); }
+    if p.purge_stream(1, s).is_ok() { assert!(e.manage_stream); }
+    // global-only operations ignore every per-stream record
+    if p.get_streams(1).is_ok() { assert!(w.g.manage_streams || w.g.read_streams); }
+    if p.create_stream(1).is_ok() { assert!(w.g.manage_streams); }
+    assert!(p.get_stream(2, s).is_err() && p.create_stream(2).is_err()); // unknown user
+    kani::cover!(p.update_stream(1, s).is_ok() && !w.g.manage_streams, "managed through the stream record");
+    core::mem::forget(p);
+}
+harness! { #[kani::unwind(8)] fn c09_stream_rules_sound_s1_t() { stream_rules(1) } }
+harness! { #[kani::unwind(8)] fn c09_stream_rules_sound_s2_t() { stream_rules(2) } }
+
+fn derived_rules(s: u32, t: u32) {
+    let w = any_world(Some(true));
+    let p = permissioner_of(&w);
+    let e = effective(&w, s, t);
+    // consumer groups follow get_topic, consumer offsets follow poll_messages, partitions follow topic management
+    if p.create_consumer_group(1, s, t).is_ok() { assert!(e.read_topic); }
+    if p.delete_consumer_group(1, s, t).is_ok() { assert!(e.read_topic); }
+    if p.get_consumer_group(1, s, t).is_ok() { assert!(e.read_topic); }
+    if p.join_consumer_group(1, s, t).is_ok() { assert!(e.read_topic); }
+    if p.leave_consumer_group(1, s, t).is_ok() { assert!(e.read_topic); }
+    if p.get_consumer_offset(1, s, t).is_ok() { assert!(e.poll); }
+    if p.store_consumer_offset(1, s, t).is_ok() { assert!(e.poll); }
+    if p.delete_consumer_offset(1, s, t).is_ok() { assert!(e.poll); }
+    if p.create_partitions(1, s, t).is_ok() { assert!(e.manage_topic); }
+    if p.delete_partitions(1, s, t).is_ok() { assert!(e.manage_topic); }
+    kani::cover!(p.store_consumer_offset(1, s, t).is_ok() && !e.read_topic, "offset stored with a bare poll grant");
+    core::mem::forget(p);
+}
+harness! { #[kani::unwind(8)] fn c09_group_offset_partition_rules_sound_s1_t2_t() { derived_rules(1, 2) } }
